@@ -180,15 +180,12 @@ Proof.
   assert (Hwf4 : wfx g g4).
   { destruct md2 as [m|]; [|injection H4 as <- _; exact Hwf3].
     apply bind_ok in H4 as [n3 [Hn3 H4]]. apply bind_ok in H4 as [ex [Hex H4]].
+    apply bind_ok in H4 as [all [Hall H4]]. apply bind_ok in H4 as [rs [Hrs H4]].
     revert H4. apply (fold_res_pair_inv (wfx g)).
-    - intros acc extra ga na Hacc HF. apply bind_ok in HF as [[gb nb] [-> HF]]. cbv beta iota in HF.
-      specialize (Hacc gb nb eq_refl). apply bind_ok in HF as [rs [Hrs HF]].
-      revert HF. apply (fold_res_pair_inv (wfx g)).
-      + intros acc2 r gc nc Hacc2 HF2. apply bind_ok in HF2 as [[gd nd] [-> HF2]]. cbv beta iota in HF2.
-        specialize (Hacc2 gd nd eq_refl). apply bind_ok in HF2 as [[ge ne] [Hrec HF2]]. cbv beta iota in HF2.
-        injection HF2 as <- _. destruct Hacc2 as [Hw He]. split; [eapply add_dist_wf; [exact Hw|exact Hrec]|].
-        eapply ext_trans; [exact He|]. eapply IH; [exact Hw|exact Hrec].
-      + intros g0 b0 [= <- _]. exact Hacc.
+    - intros acc2 r gc nc Hacc2 HF2. apply bind_ok in HF2 as [[gd nd] [-> HF2]]. cbv beta iota in HF2.
+      specialize (Hacc2 gd nd eq_refl). apply bind_ok in HF2 as [[ge ne] [Hrec HF2]]. cbv beta iota in HF2.
+      injection HF2 as <- _. destruct Hacc2 as [Hw He]. split; [eapply add_dist_wf; [exact Hw|exact Hrec]|].
+      eapply ext_trans; [exact He|]. eapply IH; [exact Hw|exact Hrec].
     - intros g0 b0 [= <- _]. destruct Hwf3 as [Hw3 He3]. split; [eapply setn_wf; [exact Hw3|exact Hn3|reflexivity]|].
       eapply ext_trans; [exact He3|]. eapply setn_ext; [exact Hn3|reflexivity]. }
   apply bind_ok in H as [g5 [H5 H]].
@@ -250,15 +247,12 @@ Proof.
   assert (Hwf4 : wfx g1 g4).
   { destruct md2 as [m|]; [|injection H4 as <- _; exact Hwf3].
     apply bind_ok in H4 as [n3 [Hn3 H4]]. apply bind_ok in H4 as [ex [Hex H4]].
+    apply bind_ok in H4 as [all [Hall H4]]. apply bind_ok in H4 as [rs [Hrs H4]].
     revert H4. apply (fold_res_pair_inv (wfx g1)).
-    - intros acc extra ga na Hacc HF. apply bind_ok in HF as [[gb nb] [-> HF]]. cbv beta iota in HF.
-      specialize (Hacc gb nb eq_refl). apply bind_ok in HF as [rs [Hrs HF]].
-      revert HF. apply (fold_res_pair_inv (wfx g1)).
-      + intros acc2 r0 gc nc Hacc2 HF2. apply bind_ok in HF2 as [[gd nd] [-> HF2]]. cbv beta iota in HF2.
-        specialize (Hacc2 gd nd eq_refl). apply bind_ok in HF2 as [[ge ne] [Hrec HF2]]. cbv beta iota in HF2.
-        injection HF2 as <- _. destruct Hacc2 as [Hw He]. split; [eapply add_dist_wf; [exact Hw|exact Hrec]|].
-        eapply ext_trans; [exact He|]. eapply add_dist_wfx; [exact Hw|exact Hrec].
-      + intros g0 b0 [= <- _]. exact Hacc.
+    - intros acc2 r0 gc nc Hacc2 HF2. apply bind_ok in HF2 as [[gd nd] [-> HF2]]. cbv beta iota in HF2.
+      specialize (Hacc2 gd nd eq_refl). apply bind_ok in HF2 as [[ge ne] [Hrec HF2]]. cbv beta iota in HF2.
+      injection HF2 as <- _. destruct Hacc2 as [Hw He]. split; [eapply add_dist_wf; [exact Hw|exact Hrec]|].
+      eapply ext_trans; [exact He|]. eapply add_dist_wfx; [exact Hw|exact Hrec].
     - intros g0 b0 [= <- _]. destruct Hwf3 as [Hw3 He3]. split; [eapply setn_wf; [exact Hw3|exact Hn3|reflexivity]|].
       eapply ext_trans; [exact He3|]. eapply setn_ext; [exact Hn3|reflexivity]. }
   apply bind_ok in H as [g5 [H5 H]].
